@@ -1,6 +1,11 @@
 package props
 
-import "astverif/muxstate"
+import (
+	"go/types"
+	"strings"
+
+	"astverif/muxstate"
+)
 
 func init() { register("C17", "other", c17) }
 
@@ -12,7 +17,7 @@ func c17(c *Ctx) {
 		"force — the truth table of the argument passed by WriteData (short-circuit blocks and phi walked) equals AdaptationField!=nil && RandomAccessIndicator && PID==pmt.PCRPID, atoms recognised through field objects. " +
 		"current — generatePMT stores &m.pmt (generatePAT: m.pm.toPATDataUnlocked()) into the section passed to writePSIData; every write of m.pmt.ElementaryStreams / m.pmt.PCRPID / m.pm is followed on every non-failing path by pmtUpdated/pmUpdated = true; esContexts and the stream list change in the same functions with the same PID (append + insert of the same es; two-slice removal at the index whose PID matched the deleted key); growth only at the tail. " +
 		"version — version inc() only inside the generator on the true edge of its dirty flag, the emitted VersionNumber is that counter's get()/inc(); the flag is cleared only after the last call that can fail, on success edges; version counters built with 31; NewMuxer registers exactly (pmtStartPID, programNumberStart), setUnlocked/toPATDataUnlocked carry the pair into the PAT, the PMT packet uses pmtStartPID and TableIDExtension = m.pmt.ProgramNumber = programNumberStart. " +
-		"autopid — the automatic PID is m.nextPID; nextPID must be initialised in NewMuxer from a constant in [0x20,0x1FFF) and otherwise only incremented; the candidate must pass a duplicate check before the stream is registered. " +
+		"autopid — the automatic PID is m.nextPID; nextPID must be initialised in NewMuxer from a constant in [0x20,0x1FFF) and otherwise only incremented; the candidate must pass a duplicate check before the stream is registered, and the assigned value must be PROVEN unused at the assignment: a membership test (esContexts lookup or search of pmt.ElementaryStreams) of the current m.nextPID dominates the read that is assigned, and neither the test's in-use edge nor any store to m.nextPID can be followed by that read without the test being re-executed (loop form yes, single `if` no). Version counters and dirty flags are overwritten only by construction or by a rollback that writes back the snapshot of the same field taken before the generator call (undo[F]). " +
 		"NOT decided: positions of table packets in concrete byte streams; the `iff` of the version rule over histories containing failed generations (the static part is C05's S1-tables); that nextPID does not run into 0x1FFF or an explicitly added PID after 2^13 additions beyond what the duplicate check covers; content of descriptors/stream types in the PMT body (C13)."
 	r.RuleText = "one obligation per ordering/dominance instance (first), per clause of retransmitTables and the who-may-write set (periodic), per retransmitTables call (force), per mutation site and per list/map update pair (current), per version inc / flag clear / mapping constant (version, width), per nextPID store plus initialised / collision-checked (autopid)"
 	r.Trusted = []string{"go/types + go/ssa (x/tools v0.29.0): CFG, dominators, def-use, phi placement", "Go semantics of append / delete / map update and of short-circuit && (as compiled by go/ssa)", "Muxer methods are not called concurrently (the type documents no locking)"}
@@ -21,6 +26,7 @@ func c17(c *Ctx) {
 	muxstate.Force(c.P, r)
 	muxstate.Current(c.P, r)
 	muxstate.Versions(c.P, r)
+	muxstate.UndoStores(c.P, r, muxstate.RuleVersion, func(f *types.Var) bool { return !strings.HasSuffix(f.Name(), "CC") })
 	muxstate.CounterWidths(c.P, r, map[string]int64{"version": 31}, map[string]int{"version": 2})
 	muxstate.AutoPID(c.P, r, muxstate.RuleAutoPID)
 }
